@@ -294,8 +294,8 @@ func dpmComponent(r *hutil.Rng, first bool) string {
 		default:
 			c = hutil.Choice(r, dpmRefused)
 		}
-		if first && (!identRe.MatchString(c) || regoKeywords[c]) {
-			continue // the first component is written as a variable
+		if first && (!identRe.MatchString(c) || regoKeywords[c] || c == "_") {
+			continue // the first component is written as a variable (and "_" there is the wildcard, not a name)
 		}
 		return c
 	}
